@@ -2,9 +2,12 @@
    extracted inductive types; no Extract Constant. *)
 From Coq Require Import ExtrOcamlBasic.
 From Coq Require Extraction.
-From I18n Require Import Lib.Outcome Model.IntExpr Model.PluralForms Model.Tags Generated.UcdPrintable.
+From I18n Require Import Lib.Outcome Model.IntExpr Model.PluralForms Model.Tags Generated.UcdPrintable
+  Model.PoUnescape Model.PoParser Model.PoLexer.
 Extraction Language OCaml.
 Extraction "model.ml"
   IntExpr.parse_string IntExpr.pyeval IntExpr.codomain IntExpr.period
   PluralForms.parse_plural_forms PluralForms.check_plurals_core
-  Tags.escape Tags.format_line Tags.priority Tags.in_ranges UcdPrintable.printable_ranges.
+  Tags.escape Tags.format_line Tags.priority Tags.in_ranges UcdPrintable.printable_ranges
+  PoUnescape.unescape PoParser.lex_line PoParser.parse_lines PoParser.py_isspace
+  PoLexer.detect_encoding PoLexer.codecs_open_text PoLexer.load_po PoLexer.pofile.
